@@ -2,3 +2,4 @@ pub mod bulkhead;
 pub mod ratelimiter;
 pub mod circuitbreaker;
 pub mod budget;
+pub mod adaptive;
